@@ -473,6 +473,65 @@ def run_frommatrix(ctx):
             ctx.violation('frommatrix', 'rotation+translation', 'raises:' + type(e).__name__, message=str(e)[:200])
 
 
+def run_frommatrix_options(ctx):
+    """Every keyword a frommatrix constructor accepts must reach the geometry: frommatrix(..., M, **kw) is the class built from
+    the transformed default vectors with the same keywords - compared away from angle 0, where helical and shift terms
+    vanish."""
+    rng = ctx.rng('frommatrix-options')
+    apart = odl.uniform_partition(0, 4 * np.pi, 9)
+    d1 = odl.uniform_partition(-1.5, 2.0, 5)
+    d2 = odl.uniform_partition([-1.5, -1], [2.0, 1.2], (5, 4))
+    opts2 = [('default', {}), ('det_curvature_radius', {'det_curvature_radius': 7.0}), ('src_shift_func', {'src_shift_func': sfun2}),
+             ('det_shift_func', {'det_shift_func': dfun2}), ('all', {'det_curvature_radius': 6.5, 'src_shift_func': sfun2, 'det_shift_func': dfun2})]
+    opts3 = [('default', {}), ('pitch', {'pitch': 1.7}), ('pitch-negative', {'pitch': -0.6}), ('offset_along_axis', {'offset_along_axis': 0.8}),
+             ('pitch+offset', {'pitch': 2.3, 'offset_along_axis': -0.4}), ('det_curvature_radius', {'det_curvature_radius': (7.0, None)}),
+             ('det_curvature_radius-spherical', {'det_curvature_radius': (6.0, 6.0)}), ('src_shift_func', {'src_shift_func': sfun3}),
+             ('det_shift_func', {'det_shift_func': dfun3}),
+             ('all', {'pitch': 0.9, 'offset_along_axis': 0.3, 'det_curvature_radius': (8.0, None), 'src_shift_func': sfun3, 'det_shift_func': dfun3})]
+    popts3 = [('default', {})]
+    i = 0
+    for rep in range(ctx.reps(1, 3)):
+        th = rng.uniform(0, 2 * np.pi)
+        M2 = rot2(th)
+        t2 = rng.normal(size=2)
+        M3 = rodrigues(rvec(rng, 3, True), rng.uniform(0.3, np.pi))
+        t3 = rng.normal(size=3)
+        plans = []
+        for oname, kw in opts2:
+            plans.append(('FanBeamGeometry', oname, kw, 2,
+                          lambda kw: TOMO.FanBeamGeometry.frommatrix(apart, d1, 2, 3, np.hstack([M2, t2[:, None]]), **kw),
+                          lambda kw: TOMO.FanBeamGeometry(apart, d1, 2, 3, src_to_det_init=M2 @ np.array([0, 1.0]), det_axis_init=M2 @ np.array([1.0, 0]),
+                                                          translation=t2, **kw)))
+        for oname, kw in opts3:
+            plans.append(('ConeBeamGeometry', oname, kw, 3,
+                          lambda kw: TOMO.ConeBeamGeometry.frommatrix(apart, d2, 2, 3, np.hstack([M3, t3[:, None]]), **kw),
+                          lambda kw: TOMO.ConeBeamGeometry(apart, d2, 2, 3, axis=M3 @ [0, 0, 1.0], src_to_det_init=M3 @ [0, 1.0, 0],
+                                                           det_axes_init=(M3 @ [1.0, 0, 0], M3 @ [0, 0, 1.0]), translation=t3, **kw)))
+        for cname, oname, kw, nd, mk_m, mk_d in plans:
+            i += 1
+            if not ctx.mine(i):
+                continue
+            ctx.ev('slicing/matrix')
+            ctx.case('frommatrix-options;%s;%s' % (cname, oname), rep)
+            try:
+                g, h = mk_m(kw), mk_d(kw)
+                dp = 0.4 if nd == 2 else (0.4, -0.2)
+                for a in list(rng.uniform(0.3, 4 * np.pi, size=3)):
+                    for meth, args in (('src_position', (a,)), ('det_refpoint', (a,)), ('det_point_position', (a, dp)), ('det_to_src', (a, dp)),
+                                       ('det_axes' if nd == 3 else 'det_axis', (a,))):
+                        if not np.allclose(getattr(g, meth)(*args), getattr(h, meth)(*args), atol=1e-12):
+                            ctx.violation(cname + '/frommatrix', 'option=' + oname, 'differs-from-transformed-vectors', method=meth, angle=float(a),
+                                          got=np.asarray(getattr(g, meth)(*args)).ravel()[:3], ref=np.asarray(getattr(h, meth)(*args)).ravel()[:3])
+                            raise StopIteration
+                for attr in ('pitch', 'offset_along_axis', 'det_curvature_radius'):
+                    if hasattr(h, attr) and not np.all(np.asarray(getattr(g, attr), dtype=object) == np.asarray(getattr(h, attr), dtype=object)):
+                        ctx.violation(cname + '/frommatrix', 'option=' + oname, 'attribute-lost', attribute=attr, got=str(getattr(g, attr)), ref=str(getattr(h, attr)))
+            except StopIteration:
+                pass
+            except Exception as e:
+                ctx.violation(cname + '/frommatrix', 'option=' + oname, 'raises:' + type(e).__name__, message=str(e)[:200])
+
+
 # ---------------------------------------------------------------------------------------------------------------
 # detectors
 
@@ -499,6 +558,9 @@ def run_detector_alignment(ctx):
         b = np.cross(a, rvec(rng, 3, True))
         b /= np.linalg.norm(b)
         cases.append(('generic', [a, b]))
+    # the same orientations given as perpendicular vectors of other lengths: documented as directions, so length must not matter
+    for kind, axes in list(cases):
+        cases.append((kind + ';non-unit', [np.asarray(axes[0], float) * rng.uniform(1.5, 4), np.asarray(axes[1], float) * rng.uniform(0.2, 0.7)]))
     part2 = odl.uniform_partition([-1, -1], [1, 1], (4, 5))
     for i, (kind, axes) in enumerate(cases):
         if not ctx.mine(i):
@@ -518,6 +580,16 @@ def run_detector_alignment(ctx):
                         break
                 if not np.allclose(det.surface((0.0, 0.0)), 0, atol=1e-12):
                     ctx.violation(nm, 'alignment;' + kind, 'surface(0)!=origin')
+                if kind.endswith('non-unit'):
+                    unit = [np.asarray(a_, float) / np.linalg.norm(a_) for a_ in axes]
+                    det1 = {'Flat2dDetector': lambda: D.Flat2dDetector(part2, unit), 'CylindricalDetector': lambda: D.CylindricalDetector(part2, unit, 3.0),
+                            'SphericalDetector': lambda: D.SphericalDetector(part2, unit, 3.0)}[nm]()
+                    for prm in ((0.3, -0.4), (-0.9, 0.8), (1.0, 1.0)):
+                        if not np.allclose(det.surface(prm), det1.surface(prm), atol=1e-10) or \
+                                not np.allclose(det.surface_deriv(prm), det1.surface_deriv(prm), atol=1e-10):
+                            ctx.violation(nm, 'alignment;' + kind, 'surface-depends-on-the-length-of-the-axes', param=prm,
+                                          got=np.asarray(det.surface(prm)), ref=np.asarray(det1.surface(prm)))
+                            break
             except Exception as e:
                 ctx.violation(nm, 'alignment;' + kind, 'raises:' + type(e).__name__, message=str(e)[:200])
     part1 = odl.uniform_partition(-1, 1, 5)
@@ -892,6 +964,7 @@ def run(ctx):
     run_formula(ctx)
     run_relational(ctx)
     run_frommatrix(ctx)
+    run_frommatrix_options(ctx)
     run_detectors(ctx)
     run_detector_alignment(ctx)
     run_astra_vectors(ctx)
